@@ -89,7 +89,12 @@ def run_job(job, timeout_ms=10000, second_opinion=False):
         out["missing_loops"] = [k for k in job.contract.loops if ("loopcnt", k) not in ex.labels
                                 and not any(isinstance(x, tuple) and x[0] == "loopcnt" and
                                             (x[1] == k or (x[1] + "#" in k)) for x in ex.labels)]
+        if job.expect == "refuted":
+            want = "post" if job.tag.endswith("#vacuity-canary") else "bounds"
+            obls = [o for o in obls if o.kind == want]
         for o in obls:
+            if job.expect == "refuted" and any(r["status"] == "refuted" for r in out["results"]):
+                break
             symex.discharge(o, timeout_ms)
             if o.status == "undecided":
                 if symex.small_scope(o) is None:
